@@ -58,7 +58,7 @@ func c01Class(it *c01Item, mode string, goRes string) string {
 		return c01HotDynAssign
 	}
 
-	for _, c := range []string{c01ClsNestedRangeRet, c01ClsUintWide, c01ClsCloShadow, c01ClsRangeLeak, c01ClsLoopShadow} {
+	for _, c := range []string{c01ClsNestedRangeRet, c01ClsUintWide, c01ClsCloShadow, c01ClsRangeLeak, c01ClsLoopShadow, c01ClsCloNested} {
 		if it.feats[c] {
 			return c
 		}
@@ -116,6 +116,18 @@ func TestVerifC01(t *testing.T) {
 		id := fmt.Sprintf("p%04d", len(items))
 		items = append(items, &c01Item{id: id, src: strings.ReplaceAll(text, "§", ""), gen: strings.ReplaceAll(text, "§", id+"_"),
 			feats: c01StructFeats(strings.ReplaceAll(text, "§", ""))})
+	}
+
+	// closure-capture programs (source text only): closures over loop variables created in nested
+	// blocks of loop bodies, kept, and called after the loops
+	nc := n / 4
+	rc := verifh.Rand(103)
+
+	for i := 0; i < nc; i++ {
+		text := c01GenCapture(rc)
+		id := fmt.Sprintf("p%04d", len(items))
+		items = append(items, &c01Item{id: id, src: strings.ReplaceAll(text, "§", ""), gen: strings.ReplaceAll(text, "§", id+"_"),
+			feats: c01CaptureFeats(strings.ReplaceAll(text, "§", ""))})
 	}
 
 	srcs := map[string]string{}
